@@ -76,9 +76,9 @@ inst("p_param_clear", "parser", "t_p_param_clear()", 8, {"C03": Q},
      desc="Param::clear from any Param satisfying zero-beyond", bounds="all Params")
 inst("p_collect", "parser", "t_p_collect()", 8, {"C03": Q, "C20": Q},
      desc="collect / put / osc_put from any parser", bounds="all chars")
-for cp in (0, 1, 5, 31):
+for cp in (0, 1, 5, 30, 31):   # 30: the last ';' that still advances (seed C03-f)
     u = max(cp + 3, 9)
-    inst("p_param__cp%d" % cp, "parser", "t_p_param(%d)" % cp, u, {"C03": Q if cp in (1, 31) else T, "C01": Q if cp == 31 else T},
+    inst("p_param__cp%d" % cp, "parser", "t_p_param(%d)" % cp, u, {"C03": Q if cp in (1, 30, 31) else T, "C01": Q if cp == 31 else T},
          desc="Parser::param(c), c in '0'..=';', from any InvP parser with cur_param=%d: exactly one sub-parameter / index changes, saturation at 32 parameters" % cp,
          bounds="cur_param=%d, all values" % cp)
     inst("p_total__cp%d" % cp, "parser", "t_p_total(%d)" % cp, max(cp + 3, 34), {"C01": Q if cp in (1, 31) else T, "C03": T},
@@ -240,6 +240,10 @@ for op, (cols, rows, row, top, bottom) in {
 scroll("Su", 3, 3, 1, 0, 1, {"C06": Q, "C14": Q, "C13": Q, "C15": T, "C01": T})          # partial region anchored at the top: insert path
 scroll("Su", 3, 3, 1, 0, 1, {"C14": Q, "C13": Q, "C06": T}, sb=0, alt=0, limit="Some(0)", suffix="_l0")   # same with scrollback limit 0
 scroll("Lf", 3, 3, 1, 0, 1, {"C14": T, "C13": T, "C06": T}, sb=0, alt=0, limit="Some(0)", suffix="_l0")
+# whole-view upward scrolls with scrollback limit 0: the lines must still pass through lines() to be handed out by gc (seed C14-f)
+for nf in (2, 65535):
+    scroll("Su", 2, 2, 1, 0, 1, {"C14": Q, "C06": T, "C13": T}, sb=0, alt=0, limit="Some(0)", suffix="_l0", nfix=nf)
+scroll("Dl", 2, 2, 0, 0, 1, {"C14": Q, "C06": T}, sb=0, alt=0, limit="Some(0)", suffix="_l0", nfix=3)
 scroll("Dl", 3, 3, 0, 0, 2, {"C06": Q, "C14": Q, "C01": T}, nfix=2)                       # DL at the top row feeds the scrollback
 # thorough: every (cursor row, margin pair) of a 3-row screen for every op
 for op in ("Su", "Sd", "Il", "Dl", "Lf", "Nel", "Ri"):
@@ -369,7 +373,7 @@ switch("Enter1047", 3, 2, 0, {"C02": Q, "C17": Q, "C16": T, "C01": Q}, parked_ro
 switch("Enter1049", 3, 1, 0, {"C02": T, "C17": T, "C16": T}, parked_rows=3, asrow=1, suffix="_stale")
 for op in ("Leave1047", "Leave1049"):
     switch(op, 3, 3, 1, {"C16": Q, "C17": Q if op == "Leave1049" else T, "C15": Q if op == "Leave1049" else T, "C02": T, "C14": T, "C01": T})
-    switch(op, 3, 3, 0, {"C16": T, "C17": T, "C02": T})
+    switch(op, 3, 3, 0, {"C16": T, "C17": Q if op == "Leave1049" else T, "C02": T})   # ?1049l while the primary is showing still restores (seed C17-f)
     # R-switch: the primary was parked with another height (resize during the excursion); heights and cursor rows concrete
     for (rows, pr, crow, asrow) in ((2, 3, 1, 2), (3, 2, 2, 0), (2, 3, 0, 0), (3, 2, 0, 1), (1, 3, 0, 1), (3, 1, 1, 0)):
         quick = (rows, pr, crow, asrow) in ((2, 3, 1, 2), (3, 2, 2, 0))
@@ -484,9 +488,9 @@ gc(2, 2, 0, "Some(0)", 1, False, {"C13": T, "C12": T}, tn=False)
 inst("pen_bits", "pen", "t_pen_bits()", 4, {"C08": Q, "C01": T},
      desc="Pen: each set_x / unset_x changes exactly attribute x, is_x reads it, bold / faint exclusive, colours are the fields, for any pen",
      bounds="all pens (3 x 2^5 attribute combinations, all colours)")
-for k in (1, 2, 3):
+for k in (0, 1, 2, 3):   # k = 0: a list of unknown codes only decodes to no operation and must leave the pen alone (seed C08-f)
     inst("sgr_fold__k%d" % k, "terminal", "t_sgr(%s, %d)" % (tcfg(2, 2, sb=0, alt=2, limit="Some(1)"), k), 6,
-         {"C08": Q if k == 2 else T, "C17": T, "C01": T}, mem=6,
+         {"C08": Q if k in (0, 2) else T, "C17": T, "C01": T}, mem=6, optional_covers=["bold italic coloured pen"] if k == 0 else [],
          desc="execute(Sgr(ops)) with %d arbitrary SgrOps from any pen == left fold of the statement (reset, bold/faint exclusive, 21/22, five independent bits, colours); nothing else changes" % k,
          bounds="%d operations, any colours" % k)
 for (cols, rows, limit) in ((1, 1, 0), (3, 1, 1), (1, 3, 10), (2, 2, 0), (4, 3, 1), (9, 2, 3)):
